@@ -218,6 +218,25 @@ def san_key(stderr_text):
     return "san:%s@%s" % (kind, frame or "?")
 
 
+VG_RE = re.compile(r"==\d+== (Invalid (?:read|write) of size \d+|Conditional jump or move depends on uninitialised value|"
+                   r"Use of uninitialised value of size \d+|Syscall param \S+ (?:points to|contains) uninitialised|Invalid free|Mismatched free)")
+
+
+def valgrind_key(err):
+    m = VG_RE.search(err)
+    if not m:
+        return None
+    kind = re.sub(r"\s+", "_", m.group(1))
+    frame = None
+    for fm in re.finditer(r"(?:at|by) 0x[0-9A-F]+: (\S+) \((\S+?):\d+\)", err[m.start():m.start() + 4000]):
+        fn, src = fm.group(1), fm.group(2)
+        if src.endswith(".c") and not src.startswith(("vg_", "d_", "vh")) and os.path.exists(os.path.join(REPO, "libjwt", src)) or \
+                os.path.exists(os.path.join(REPO, "libjwt", "openssl", src)) or os.path.exists(os.path.join(REPO, "libjwt", "gnutls", src)):
+            frame = fn
+            break
+    return "memcheck:%s@%s" % (kind, frame or "?")
+
+
 def run_shards(binary, args, nshards, rundir, env=None, timeout=1800, tag="s", stdin_data=None,
                max_restarts=20):
     """Run `binary args --shard i --nshards n` for each shard in parallel.
@@ -285,7 +304,7 @@ def run_shards(binary, args, nshards, rundir, env=None, timeout=1800, tag="s", s
                     case = None
             if rc == 2 and "@@HARNESS" in err:
                 raise HarnessFailure("driver reported harness failure: " + err[-2000:])
-            key = san_key(err) or ("exit:%d" % rc)
+            key = san_key(err) or valgrind_key(err) or ("exit:%d" % rc)
             crashes.append(dict(case=case, rc=rc, key=key, stderr=err[-6000:], shard=i))
             n = restarts.get(i, 0)
             if case is not None and "idx" in case and n < max_restarts:
